@@ -403,7 +403,9 @@ def World.onObs1 (w : World) (toks : List String) : World :=
   let w := match w.dbKind with
     | .log =>
       let il := namesToNums idxS
-      let w := if il != iv then w.fail "C08" "list" s!"peer {p}: List(-1) {showNums il} differs from the log listing {showNums iv}" else w
+      -- (an entry appended by a write that then failed — its head could not be persisted — is in the log
+      -- but reaches the view only with the next successful update)
+      let w := if il != iv && il != iv.filter (fun n => !w.unacked.contains n) then w.fail "C08" "list" s!"peer {p}: List(-1) {showNums il} differs from the log listing {showNums iv}" else w
       w
     | _ =>
       let iidx := parseKVs idxS
